@@ -129,7 +129,7 @@ def setup(ctx):
 def _tmpdir():
   if _STATE['tmp'] is None:
     # (a memory file system where there is one: creating files under /tmp costs ~1 ms each on some hosts)
-    shm = '/dev/shm' if os.path.isdir('/dev/shm') and os.access('/dev/shm', os.W_OK | os.X_OK) else None
+    shm = os.environ.get('VF_SHM_DIR') or ('/dev/shm' if os.path.isdir('/dev/shm') and os.access('/dev/shm', os.W_OK | os.X_OK) else None)
     _STATE['tmp'] = tempfile.mkdtemp(prefix='vf-c02-', dir=shm)
     atexit.register(shutil.rmtree, _STATE['tmp'], True)
   return _STATE['tmp']
